@@ -1,13 +1,16 @@
 import LettreVerif.Proofs.BodyEnc
+import LettreVerif.Proofs.QuotedPrintable
 /-!
 # C10 — Body transfer encoding is lossless and obeys the declared encoding's rules
 
 `bodyNew isStr b` models `Body::new` (automatic choice), `bodyNewWith` models
 `Body::new_with_encoding`; `isStr` = the content was a `String` (lone LF becomes CRLF).  The
-reader's side is `Spec/BodyDec.lean`.  Proved here: everything except the quoted-printable
-round trip and line rules, whose full statements are `qp_roundtrip` / `qp_lines` below in
-comments; for quoted-printable the tie to RFC 2045 is the correspondence check (the spec
-decoder is applied to every real encoder output).
+reader's side is `Spec/BodyDec.lean`.  Proved here: the choice of the encoding, the 7bit / 8bit
+rules, and the round trips of all three non-trivial encodings — identity, base64, and
+quoted-printable (`roundtrip_quoted_printable`: an RFC 2045 §6.7 reader gives back every content).
+Not proved: the line rules of the quoted-printable output (`qp_lines`: at most 76 characters, no
+bare trailing white space) — `encodedOk` is applied to every real encoder output by the
+correspondence check.
 -/
 namespace LV.C10
 open LV LV.BodyEnc LV.BodyDec
@@ -60,6 +63,12 @@ theorem roundtrip_identity (isStr : Bool) (b : Bytes) (e : Enc)
     encodeWith e (if isStr then crlfNormalize b else b) = (if isStr then crlfNormalize b else b) := by
   rcases he with rfl | rfl | rfl <;> rfl
 
+/-- **Quoted-printable is lossless.** For every content, the RFC 2045 §6.7 reader applied to what the encoder emits
+    gives back exactly that content: line breaks, bare CR and LF, `=`, blanks before a line break or at the end, any
+    octet. -/
+theorem roundtrip_quoted_printable (b : Bytes) : BodyDec.qpDecode (encodeWith .quotedPrintable b) = some b :=
+  BodyEnc.qp_roundtrip b
+
 /-- base64: a reader that ignores line breaks recovers exactly the octets. -/
 theorem roundtrip_base64 (b : Bytes) : b64Decode (encodeWith .base64 b) = some b :=
   b64Body_roundtrip b
@@ -78,8 +87,8 @@ theorem refusal_matrix (isStr : Bool) (b : Bytes) :
   · cases h : bestEncoding BodyEnc.guard isStr b true <;> simp [bodyNewWith, compatible, h]
 
 /-- non-vacuity: NUL forces quoted-printable, a long line too, a short text is 7bit with its
-    LF converted; the quoted-printable outputs decode back (instances of the unproved
-    `qp_roundtrip`). -/
+    LF converted; the quoted-printable outputs decode back (instances of
+    `roundtrip_quoted_printable`). -/
 example :
     bodyNew true (str "a\nb") = (.sevenBit, str "a\r\nb") ∧
     (bodyNew true [97, 0, 98]).1 = .quotedPrintable ∧ (bodyNew false [97, 10, 98]).1 = .base64 ∧
